@@ -11,7 +11,7 @@ CONSTANTS
   MaxPrice = 46
   Prices <- TracePrices
   Modes = {"fresh", "catchup"}
-  Kinds = {"closed", "lost", "won", "other", "xclosed"}
+  Kinds = {"closed", "lost", "won", "other", "xclosed", "created"}
   TimeoutCfgs = {TRUE, FALSE}
 
 POSTCONDITION CAccepted
